@@ -2,6 +2,7 @@ CONSTANTS
   Libs <- MCLibs
   Scenarios <- MCScenarios
   LineInv <- MCLineInv
+  Carriers <- MCCarriers
   RevMargins <- MCRevMargins
   MaxModes = 3
   WideModes = 1
@@ -14,6 +15,7 @@ INVARIANT InfPenaltyAlwaysBlocks
 INVARIANT CompositionHolds
 INVARIANT LineIsPristine
 INVARIANT ReverseOnOwnRoute
+INVARIANT DirectionAsRequested
 INVARIANT RuleWellDefined
 INVARIANT SelectionUniqueUpToTies
 INVARIANT BlockedIffNoFeasible
